@@ -300,7 +300,7 @@ def gen_hw_cascade(rng):
     exprs, ops = [], []
     prev = "A"
     for i in range(n):
-        out = "Z" if i == n - 1 else "T%d" % i
+        out = "Z" if i == n - 1 else ["Tq", "Tc", "Tx"][i]          # program order is not ascending string order
         other = "BCDE"[i]
         decl[other] = list(ranks)
         op = rng.choice(["*", "*", "+"])
